@@ -2,6 +2,7 @@ package main
 
 import (
 	"fmt"
+	"go/ast"
 	"go/types"
 	"sort"
 	"strings"
@@ -28,6 +29,9 @@ type FuncReport struct {
 }
 
 func hasProp(ps []string, p string) bool {
+	if p == "ALL" {
+		return true
+	}
 	for _, x := range ps {
 		if x == p {
 			return true
@@ -119,13 +123,16 @@ func (w *World) genFunc(ctr *FuncContract) (rep *FuncReport) {
 		e.assume(t, "precondition")
 		reqs = append(reqs, t)
 	}
-	for _, cl := range globalInvs[ctr.Pkg] {
-		t, err := e.evalBool(env, cl.Expr)
+	for _, gi := range e.allGlobalInvs(entry, entry) {
+		e.assume(gi.term, "package invariant on entry")
+	}
+	if ctr.Writes != nil {
+		ts, err := e.evalWriteTargets(env, ctr.Writes)
 		if err != nil {
-			rep.Err = fmt.Errorf("global-invariant %s: %v", cl.Text, err)
+			rep.Err = fmt.Errorf("%s: %v", ctr.Name, err)
 			return rep
 		}
-		e.assume(t, "package invariant on entry")
+		e.rootWrites = ts
 	}
 	if len(ctr.Requires) > 0 {
 		e.cover("requires", ctr.AllProps, "true", "preconditions are satisfiable")
@@ -152,14 +159,9 @@ func (w *World) genFunc(ctr *FuncContract) (rep *FuncReport) {
 			e.curPos = fn.Pos()
 			e.oblige("post", fmt.Sprintf("ensures%d", i+1), cl.Props, rr.reach, t, "postcondition: "+cl.Text, "ensures "+cl.Text)
 		}
-		for i, cl := range globalInvs[ctr.Pkg] {
-			t, err := e.evalBool(env2, cl.Expr)
-			if err != nil {
-				rep.Err = fmt.Errorf("global-invariant %s: %v", cl.Text, err)
-				return rep
-			}
+		for i, gi := range e.allGlobalInvs(e.rootEntry, rr.state) {
 			e.curPos = fn.Pos()
-			e.oblige("ginv", fmt.Sprintf("exit%d", i+1), cl.Props, rr.reach, t, "package invariant re-established on exit: "+cl.Text, "global-invariant "+cl.Text)
+			e.oblige("ginv", fmt.Sprintf("exit%d", i+1), gi.cl.Props, rr.reach, gi.term, "package invariant re-established on exit: "+gi.cl.Text, "global-invariant "+gi.cl.Text)
 		}
 		if len(ctr.Ensures) > 0 {
 			e.cover("return", ctr.AllProps, rr.reach, "the function can return")
@@ -233,7 +235,10 @@ func (e *Exec) loopInvariant(f *Frame, li *loopInfo, st *State, pc Term, kind st
 	if f.ctr == nil || e.discovery > 0 {
 		return
 	}
-	cls := append(append([]Clause{}, f.ctr.Invs[li.ordinal]...), globalInvs[f.ctr.Pkg]...)
+	for i, gi := range e.allGlobalInvs(e.rootEntry, st) {
+		e.oblige(kind, fmt.Sprintf("loop%d.g%d", li.ordinal, i+1), gi.cl.Props, pc, gi.term, fmt.Sprintf("%s of loop %d (package invariant): %s", kind, li.ordinal, gi.cl.Text), "global-invariant "+gi.cl.Text)
+	}
+	cls := f.ctr.Invs[li.ordinal]
 	if len(cls) == 0 {
 		return
 	}
@@ -252,7 +257,10 @@ func (e *Exec) loopInvariantAssume(f *Frame, li *loopInfo, st *State) {
 	if f.ctr == nil {
 		return
 	}
-	cls := append(append([]Clause{}, f.ctr.Invs[li.ordinal]...), globalInvs[f.ctr.Pkg]...)
+	for _, gi := range e.allGlobalInvs(e.rootEntry, st) {
+		e.assume(gi.term, "package invariant (loop)")
+	}
+	cls := f.ctr.Invs[li.ordinal]
 	if len(cls) == 0 {
 		return
 	}
@@ -270,8 +278,12 @@ func (e *Exec) loopInvariantAssume(f *Frame, li *loopInfo, st *State) {
 // ---------------------------------------------------------------------------------------------
 // Script generation with cone-of-influence pruning
 
-func (e *Exec) script(o *Obligation, withModel bool) string {
+// script builds the SMT-LIB text of an obligation. focused=true selects only assumptions that are
+// directly relevant to the goal's cone (hub symbols such as allocation counters do not pull anything in;
+// keyed assumptions only when their key symbol is needed) — sound for proving, not for refuting.
+func (e *Exec) script(o *Obligation, withModel bool, focused bool) string {
 	items := e.items[:o.ItemsLen]
+	e.symMu.Lock()
 	for i := range items {
 		if items[i].syms == nil {
 			items[i].syms = symbolsOf(items[i].Text)
@@ -280,10 +292,32 @@ func (e *Exec) script(o *Obligation, withModel bool) string {
 			}
 		}
 	}
+	e.symMu.Unlock()
 	defIdx := map[string]int{}
 	for i, it := range items {
 		if it.Kind != ItemAssume {
 			defIdx[it.Sym] = i
+		}
+	}
+	hub := map[string]bool{}
+	if focused {
+		freq := map[string]int{}
+		for _, it := range items {
+			if it.Kind != ItemAssume {
+				continue
+			}
+			seen := map[string]bool{}
+			for _, s := range it.syms {
+				if _, ok := defIdx[s]; ok && !seen[s] {
+					seen[s] = true
+					freq[s]++
+				}
+			}
+		}
+		for s, n := range freq {
+			if n > 12 || strings.HasPrefix(s, "ALLOC") {
+				hub[s] = true
+			}
 		}
 	}
 	needed := map[string]bool{}
@@ -320,10 +354,14 @@ func (e *Exec) script(o *Obligation, withModel bool) string {
 				continue
 			}
 			hit := false
-			for _, s := range it.syms {
-				if needed[s] {
-					hit = true
-					break
+			if focused && it.Key != "" {
+				hit = needed[it.Key]
+			} else {
+				for _, s := range it.syms {
+					if needed[s] && !hub[s] {
+						hit = true
+						break
+					}
 				}
 			}
 			if hit {
@@ -342,7 +380,6 @@ func (e *Exec) script(o *Obligation, withModel bool) string {
 	}
 	b.WriteString("; obligation: " + o.Name + "\n; " + strings.ReplaceAll(o.Desc, "\n", " ") + "\n")
 	b.WriteString(e.reg.datatypeDecls())
-	// declarations first (define-funs must follow what they use: original order is dependency order)
 	for i, it := range items {
 		if include[i] {
 			b.WriteString(it.Text)
@@ -380,8 +417,23 @@ func solveAll(dir string, reps []*FuncReport, filter func(*Obligation) bool, tim
 		go func(i int, j job) {
 			sem <- struct{}{}
 			defer func() { <-sem; done <- i }()
-			script := j.e.script(j.o, false)
-			res := runSolvers(dir, j.o.Name, script, timeoutS, all, false)
+			// tier 1: focused slice (proving only); tier 2: the full context
+			var script string
+			var res SolverResult
+			if !j.o.ExpectSat {
+				script = j.e.script(j.o, false, true)
+				res = runSolvers(dir, j.o.Name+".f", script, min(timeoutS, 4), false, false)
+			}
+			if res.Verdict != "unsat" {
+				script = j.e.script(j.o, false, false)
+				to := timeoutS
+				if j.o.ExpectSat {
+					to = min(timeoutS, 3)
+				}
+				res = runSolvers(dir, j.o.Name, script, to, all && !j.o.ExpectSat, false)
+			} else {
+				res.Solver += "(focused)"
+			}
 			or := &OblResult{O: j.o, Script: script, Res: res}
 			switch {
 			case j.o.ExpectSat && res.Verdict == "sat":
@@ -395,7 +447,7 @@ func solveAll(dir string, reps []*FuncReport, filter func(*Obligation) bool, tim
 			case res.Verdict == "sat":
 				or.Status = "failed"
 				// get a model from z3
-				ms := j.e.script(j.o, true)
+				ms := j.e.script(j.o, true, false)
 				mres := runSolvers(dir, j.o.Name+".model", ms, timeoutS, false, true)
 				if mres.Verdict == "sat" {
 					or.Res.Output = mres.Output
@@ -413,4 +465,37 @@ func solveAll(dir string, reps []*FuncReport, filter func(*Obligation) bool, tim
 	}
 	sort.Slice(results, func(a, b int) bool { return results[a].O.Name < results[b].O.Name })
 	return results
+}
+
+type ginvInst struct {
+	cl   Clause
+	term Term
+}
+
+// allGlobalInvs evaluates every package invariant in the scope of its own package.
+func (e *Exec) allGlobalInvs(old, cur *State) []ginvInst {
+	var out []ginvInst
+	for _, pkg := range sortedKeys(globalInvs) {
+		scope := e.W.anyFuncOf(pkg)
+		if scope == nil {
+			continue
+		}
+		for _, cl := range globalInvs[pkg] {
+			env := &Env{vars: map[string]Val{}, cur: cur, old: old, fn: scope, lets: map[string]ast.Expr{}}
+			t, err := e.evalBool(env, cl.Expr)
+			if err != nil {
+				panic(fmt.Sprintf("fatal: global-invariant %s: %v", cl.Text, err))
+			}
+			out = append(out, ginvInst{cl, t})
+		}
+	}
+	return out
+}
+
+// writeTargetRef: the heap reference standing for a write target (object, map or slice base).
+func (e *Exec) writeTargetRef(v Val) Term {
+	if _, ok := unalias(v.T).Underlying().(*types.Slice); ok {
+		return app("s_base", v.Term)
+	}
+	return e.refOfVal(v)
 }
